@@ -72,3 +72,6 @@ func VerifEncRegions(e *EncryptedISO) [][2]int64 {
 	}
 	return out
 }
+
+// VerifISO3k3yInner returns the file an ISO3k3y wraps.
+func VerifISO3k3yInner(i *ISO3k3y) interface{} { return i.privateFile }
